@@ -117,7 +117,7 @@ def tlc(module, cfg, workers=None, timeout=1200, env=None, args=(), heap=None, s
     cmd = ["java", "-XX:+UseParallelGC", "-Xss64m"]
     if heap:
         cmd.append("-Xmx%s" % heap)
-    cmd += ["-cp", "/opt/veriftools/tla/tla2tools.jar:/opt/veriftools/tla/CommunityModules-deps.jar",
+    cmd += ["-DTLA-Library=%s" % SPEC, "-cp", "/opt/veriftools/tla/tla2tools.jar:/opt/veriftools/tla/CommunityModules-deps.jar",
             "tlc2.TLC", "-noGenerateSpecTE", "-metadir", meta, "-config", cfgp,
             "-workers", str(workers or NCPU)]
     if coverage:
@@ -129,7 +129,7 @@ def tlc(module, cfg, workers=None, timeout=1200, env=None, args=(), heap=None, s
     t0 = time.time()
     r = TlcResult()
     try:
-        rc, out = run(cmd, timeout=timeout, cwd=SPEC, env=env, check=False)
+        rc, out = run(cmd, timeout=timeout, cwd=(os.path.dirname(module) if os.path.isabs(module) else SPEC), env=env, check=False)
     finally:
         shutil.rmtree(meta, ignore_errors=True)
     r.wall = time.time() - t0
@@ -399,6 +399,7 @@ class Check:
         rid = len(self.violations) + 1
         d = os.path.join(ROOT, "replay", "%s-%d" % (self.pid, min(rid, 40)))
         if rid <= 40:       # replay material for the first 40 violations; the rest are counted
+            shutil.rmtree(d, ignore_errors=True)
             os.makedirs(d, exist_ok=True)
             with open(os.path.join(d, "violation.json"), "w") as f:
                 json.dump(descr, f, indent=1, default=str)
